@@ -234,9 +234,12 @@ static void clear_elem(m_map_t *m, map_elem *removed_entry) {
     m->length--;
     
     size_t removed_index = (removed_entry - m->table);
-    const size_t probe_len = MAP_PROBE_LEN(m);    
     size_t index = MAP_PROBE_NEXT(m, removed_index);
-    for (size_t i = 0; i < probe_len; i++) {
+    /*
+     * Walk the whole run of used slots that follows (it ends at an empty slot; there always is one):
+     * a run made of overlapping probe chains can be longer than the probe length.
+     */
+    for (size_t i = 0; i < m->table_size; i++) {
         map_elem *entry = &m->table[index];
         if (!entry->key) {
             /* Reached end of chain */
